@@ -254,8 +254,7 @@ class ContractInterp(Interp):
         if isinstance(old, VObj):
             if old.symbolic:
                 return VObj(old.cls, st.fresh(name, obj_sort(old.cls)))
-            if t is not None:
-                return mk_sym(st, self.tenv, t, st.fresh_name(name))
+            return mk_sym(st, self.tenv, t if t is not None else ("obj", old.cls), st.fresh_name(name))
         if t is not None:
             return mk_sym(st, self.tenv, t, st.fresh_name(name))
         raise Unsupported(f"cannot havoc {name} ({old!r})")
